@@ -1146,4 +1146,112 @@ example : ∃ s, instantiate ⟨3600, ⟨true, "gov"⟩, [(⟨true, "T1"⟩, som
       (b0, .sendCw20 "alice" "T1" 40 (some ⟨"channel-0", "bob", none, none⟩))]).st "channel-0" (.cw20 "T1") :=
   ⟨_, rfl, by decide⟩
 
+/-! ## Transaction-level payout gas, monotone limits, strangers, the exact effect of `Allow` -/
+
+/-- **C18, payout_gas_limit at transaction level** (clause "each payout is issued with the token's
+current limit, else the default", composed through `World.exec`): whatever the transaction — an incoming
+packet, an error acknowledgement, a timeout — if its outcome carries a payout / refund sub-message, that
+sub-message has the gas limit `expectedGas` of its denomination in the state *before* the transaction
+(the token's allow-list entry, else the default; none for native coins) and is `reply_on_error` with one
+of the two reply ids; no other kind of transaction emits a sub-message. -/
+theorem payout_gas_limit_tx {w w' : World} {blk : Block} {op : Op} {o : Outcome} {sub : SubMsg}
+    (h : w.exec blk op = .ok (w', o)) (hs : o.sub = some sub) :
+    sub.gas = expectedGas w.st sub.denom ∧ (sub.replyId = RECEIVE_ID ∨ sub.replyId = ACK_FAILURE_ID) ∧
+    ((∃ p rv tv f, op = .recv p rv tv f) ∨ (∃ chan data sv tv f, op = .ack chan data (some false) sv tv f) ∨
+     (∃ chan data sv tv f, op = .timeout chan data sv tv f)) := by
+  cases op with
+  | connect id v cv ord peer =>
+    have := (exec_plain_frame h (Or.inl ⟨id, v, cv, ord, peer, rfl⟩)).2.2.2.2.2.2.2.1
+    rw [this] at hs; cases hs
+  | chanOpen v cv ord => obtain ⟨_, rfl⟩ := exec_chanOpen h; cases hs
+  | chanClose id => exact (exec_chanClose h).elim
+  | allow snd c gg =>
+    have := (exec_plain_frame h (Or.inr (Or.inl ⟨snd, c, gg, rfl⟩))).2.2.2.2.2.2.2.1
+    rw [this] at hs; cases hs
+  | updateAdmin snd a =>
+    have := (exec_plain_frame h (Or.inr (Or.inr ⟨snd, a, rfl⟩))).2.2.2.2.2.2.2.1
+    rw [this] at hs; cases hs
+  | migrate gg =>
+    have := (exec_migrate_frame h).2.2.2.2.2.2.1
+    rw [this] at hs; cases hs
+  | transferNative snd funds msg =>
+    obtain ⟨d, amt, w1, s, out, _, _, _, _, _, rfl⟩ := exec_transferNative_spec h; cases hs
+  | sendCw20 snd token amt msg =>
+    obtain ⟨w1, m, s, out, _, _, _, _, _, _, rfl⟩ := exec_sendCw20_spec h; cases hs
+  | hook snd funds sender amt msg =>
+    obtain ⟨m, s, out, _, _, _, _, rfl⟩ := exec_hook_spec h; cases hs
+  | recv p rv tv f =>
+    rcases exec_recv_cases h with ⟨_, _, _, hn⟩ | ⟨s1, sub', hd, hsub, _⟩
+    · rw [hn] at hs; cases hs
+    · rw [hsub] at hs; cases hs
+      obtain ⟨amt, d, ch, _, _, _, _, _, _, hsd, hid, g, hg, hgas⟩ := doReceive_spec hd
+      refine ⟨?_, Or.inl hid, Or.inl ⟨p, rv, tv, f, rfl⟩⟩
+      rw [hgas, hsd]; exact (checkGasLimit_spec hg).1
+  | ack chan data ackOk sv tv f =>
+    rcases exec_ack_cases h with ⟨_, _, _, hn⟩ | ⟨rfl, s1, sub', hf, hsub, _⟩
+    · rw [hn] at hs; cases hs
+    · rw [hsub] at hs; cases hs
+      obtain ⟨h1, h2⟩ := onPacketFailure_gas hf
+      exact ⟨h1, Or.inr h2, Or.inr (Or.inl ⟨chan, data, sv, tv, f, rfl⟩)⟩
+  | timeout chan data sv tv f =>
+    obtain ⟨s1, sub', hf, hsub, _⟩ := exec_timeout_cases h
+    rw [hsub] at hs; cases hs
+    obtain ⟨h1, h2⟩ := onPacketFailure_gas hf
+    exact ⟨h1, Or.inr h2, Or.inr (Or.inr ⟨chan, data, sv, tv, f, rfl⟩)⟩
+
+/-- **C18, payout_gas_monotone** (clause "its limit is never lowered", read off the payouts): for a token
+on the allow list, the gas limit attached to its payouts never shrinks along any history (`some a ⊑
+some b` for `a ≤ b`, everything `⊑` unlimited).  (For a token covered only by the default this is
+legitimately not so: `migrate` may set a smaller default.) -/
+theorem payout_gas_monotone (w : World) (ops : List (Block × Op)) {t : Addr} {g : Option Nat}
+    (h : w.st.allow.get? t = some g) :
+    gasLe (expectedGas w.st (.cw20 t)) (expectedGas (run w ops).st (.cw20 t)) := by
+  obtain ⟨g', hg', hle⟩ := allow_monotone w ops t g h
+  simp only [expectedGas, h, hg']
+  exact hle
+
+/-- **C18, strangers and former governance are complete no-ops** (clauses 1 and 2, "histories by admin,
+former admin, strangers"): an `Allow` or `UpdateAdmin` sent by anybody who is not the current admin
+leaves the whole world unchanged — not only the allow list. -/
+theorem stranger_noop (w : World) (blk : Block) (snd : Addr) (h : w.st.admin ≠ some snd) :
+    (∀ c g, w.step blk (.allow snd c g) = w) ∧ (∀ a, w.step blk (.updateAdmin snd a) = w) := by
+  constructor
+  · intro c g
+    unfold World.step
+    cases hx : w.exec blk (.allow snd c g) with
+    | error e => rfl
+    | ok r => exact absurd (execAllow_spec (exec_allow hx)).1 h
+  · intro a
+    unfold World.step
+    cases hx : w.exec blk (.updateAdmin snd a) with
+    | error e => rfl
+    | ok r => exact absurd (execUpdateAdmin_spec (exec_updateAdmin hx)).1 h
+
+/-- After governance was handed over, the former admin is a stranger. -/
+theorem former_admin_noop {w : World} {blk : Block} {old : Addr} {a : AddrArg} {w' : World} {o : Outcome}
+    (h : w.exec blk (.updateAdmin old a) = .ok (w', o)) (hne : a.text ≠ old) (blk' : Block) :
+    (∀ c g, w'.step blk' (.allow old c g) = w') ∧ (∀ a', w'.step blk' (.updateAdmin old a') = w') := by
+  have := (execUpdateAdmin_spec (exec_updateAdmin h)).2.2.1
+  apply stranger_noop
+  rw [this]; intro e; cases e; exact hne rfl
+
+/-- **C18, allow_effect** (what an accepted `Allow` changes): it was sent by the admin with a valid
+address; exactly the entry of that address changes, to the submitted limit, which is at least as loose
+as the old one (if there was one); every other entry and the rest of the governance state are untouched. -/
+theorem allow_effect {w w' : World} {blk : Block} {snd : Addr} {c : AddrArg} {g : Option Nat} {o : Outcome}
+    (h : w.exec blk (.allow snd c g) = .ok (w', o)) :
+    w.st.admin = some snd ∧ c.valid = true ∧ w'.st.allow.get? c.text = some g ∧
+    (∀ old, w.st.allow.get? c.text = some old → gasLe old g) ∧
+    (∀ t, t ≠ c.text → w'.st.allow.get? t = w.st.allow.get? t) ∧
+    w'.st.admin = w.st.admin ∧ w'.st.config = w.st.config := by
+  obtain ⟨h1, h2, h3, h4, h5, h6, _⟩ := execAllow_spec (exec_allow h)
+  refine ⟨h1, h2, by rw [h3]; simp, h4, ?_, h5, h6⟩
+  intro t ht
+  rw [h3, AMap.get?_set_ne _ _ _ _ (Ne.symm ht)]
+
+/-- on `w0`: "mallory" is a stranger; T1's payouts carry 500 now and at least 500 after any history -/
+example : w0.st.admin ≠ some "mallory" := by decide
+example : w0.st.allow.get? "T1" = some (some 500) := by decide
+example : expectedGas (run w0 [(b0, .allow "gov" ⟨true, "T1"⟩ (some 700))]).st (.cw20 "T1") = some 700 := by decide
+
 end CwPlus.Props.C18
